@@ -842,6 +842,9 @@ func init() {
 
 	// ------------------------------------------------------------ rand
 	ex["math/rand.Intn"] = func(fr *frame, a []value) value {
+		if E.Params["RAND_CONCRETE"] == 1 {
+			return 0 // the harness declares randomness irrelevant (request ids, jitter)
+		}
 		s := E.fresh("rand_intn", 64)
 		E.Assume(E.symBinop(token.GEQ, tInt, s, 0))
 		E.Assume(E.symBinop(token.LSS, tInt, s, a[0]))
